@@ -233,12 +233,13 @@ func isCallInstr(in ssa.Instruction) bool {
 
 // c11StepCell adds the facts about the decoded structure to the description of the step.
 func c11StepCell(r *Run, fn *ssa.Function, pair *laxPair, pc *ssa.Call, d map[string]string) map[ssa.Instruction]int {
-	const zeroFact, laxFact = "strict parse fills a zero-valued structure", "lax retry runs on"
+	const zeroFact, laxFact = "strict parse fills a zero-valued structure", "lax retry fills a structure that holds nothing but this certificate's strict decode"
 	a, ok := stripIface(pair.strict.Call.Args[1]).(*ssa.Alloc)
 	if !ok {
 		d[zeroFact] = "undecided: the strict parse fills " + r.D.D(pair.strict.Call.Args[1]) + ", not a structure allocated in this function"
 		return nil
 	}
+	r.Assume("the ASN.1 decoder leaves fields of its target that are absent from the input as they are; a structure is zero-valued only after its allocation executed or the zero value was stored into it as a whole, and until a store into it or a call that receives its address (any call once the address was stored somewhere); state sets are joined over all CFG paths, conditions are not evaluated")
 	flow := c11CellFlow(fn, a, pair.strict, pair.lax)
 	if m := flow[pair.strict]; c11Only(m, c11Zero) {
 		d[zeroFact] = "true"
@@ -246,7 +247,11 @@ func c11StepCell(r *Run, fn *ssa.Function, pair *laxPair, pc *ssa.Call, d map[st
 		d[zeroFact] = "false: when the strict parse runs the structure may hold " + c11KindsString(m&^(1<<c11Zero|1<<(c11Zero+3))) +
 			" — the decoder leaves absent OPTIONAL fields untouched, so a certificate without extensions, unique ids or algorithm parameters inherits them"
 	}
-	d[laxFact] = c11KindsString(flow[pair.lax])
+	if m := flow[pair.lax]; m != 0 && !c11Kinds(m)[c11Dirty] {
+		d[laxFact] = "true"
+	} else {
+		d[laxFact] = "false: when the lax retry runs the structure may hold " + c11KindsString(m)
+	}
 	return flow
 }
 
@@ -376,18 +381,74 @@ func c11Marks(r *Run, lp *c11Loop) []c11Mark {
 }
 
 // setOn: what the mark holds after the round that comes back over back edge i:
-// "set" (non-nil), "self" (what it held before), "clear" or "?".
-func (m c11Mark) setOn(r *Run, lp *c11Loop, i int) string {
-	v := m.phi.Edges[i]
+// "set" (non-nil), "self" (what it held before), "set|self", "clear" or "?".
+// reach, when given, restricts merged values to the ways the walk can take; perr, when
+// given, is a value the walk's valuation makes non-nil.
+func (m c11Mark) setOn(r *Run, lp *c11Loop, i int, reach *Reach, perr ssa.Value) string {
+	return m.valState(r, m.phi.Edges[i], lp.head.Preds[i], lp.head, reach, perr, 0)
+}
+
+// c11NonNilBranch: the edge p→succ is the non-nil edge of a nil test of v that ends block p.
+func c11NonNilBranch(v ssa.Value, p, succ *ssa.BasicBlock) bool {
+	if len(p.Instrs) == 0 || len(p.Succs) != 2 || p.Succs[0] == p.Succs[1] {
+		return false
+	}
+	ifi, ok := p.Instrs[len(p.Instrs)-1].(*ssa.If)
+	if !ok {
+		return false
+	}
+	tv, sense := testedValue(ifi.Cond)
+	if tv != v {
+		return false
+	}
+	if bo, ok := ifi.Cond.(*ssa.BinOp); !ok || !(isNilConst(bo.X) || isNilConst(bo.Y)) {
+		if u, ok := ifi.Cond.(*ssa.UnOp); !ok || u.Op != token.NOT {
+			return false
+		}
+	}
+	k := 1
+	if sense {
+		k = 0
+	}
+	return p.Succs[k] == succ
+}
+
+// valState: the state of value v as it arrives over the edge p→succ.
+func (m c11Mark) valState(r *Run, v ssa.Value, p, succ *ssa.BasicBlock, reach *Reach, perr ssa.Value, depth int) string {
 	switch {
 	case v == ssa.Value(m.phi):
 		return "self"
 	case isNilConst(v):
 		return "clear"
-	case neverNil(v) || nonNilEdgeDominates(r, v, lp.head.Preds[i]):
+	case perr != nil && v == perr:
+		return "set"
+	case neverNil(v) || nonNilEdgeDominates(r, v, p) || c11NonNilBranch(v, p, succ):
 		return "set"
 	}
-	return "?"
+	ph, ok := v.(*ssa.Phi)
+	if !ok || depth > 4 {
+		return "?"
+	}
+	// a value merged on the way: every way the walk can take delivers a set (or the unchanged) mark
+	states := map[string]bool{}
+	for j, ed := range ph.Edges {
+		q := ph.Block().Preds[j]
+		if reach != nil && !reach.Edges[[2]int{q.Index, ph.Block().Index}] {
+			continue
+		}
+		for _, s := range strings.Split(m.valState(r, ed, q, ph.Block(), reach, perr, depth+1), "|") {
+			states[s] = true
+		}
+	}
+	switch {
+	case len(states) == 0 || states["?"] || states["clear"]:
+		return "?"
+	case states["set"] && states["self"]:
+		return "set|self"
+	case states["set"]:
+		return "set"
+	}
+	return "self"
 }
 
 // c11Sticky: once the mark is set it stays set whatever later rounds do, and from then on
@@ -400,7 +461,7 @@ func (m c11Mark) sticky(r *Run, fn *ssa.Function, lp *c11Loop) (*Reach, string) 
 		if !reach.Edges[[2]int{p.Index, lp.head.Index}] {
 			continue
 		}
-		if s := m.setOn(r, lp, i); s != "set" && s != "self" {
+		if s := m.setOn(r, lp, i, reach, nil); s != "set" && s != "self" && s != "set|self" {
 			return nil, "a later round may clear the mark " + r.D.D(m.phi)
 		}
 	}
@@ -421,7 +482,7 @@ func (m c11Mark) marksRounds(r *Run, fn *ssa.Function, lp *c11Loop, edges []int)
 	var clearWalk *Reach
 	for _, i := range edges {
 		p := lp.head.Preds[i]
-		switch m.setOn(r, lp, i) {
+		switch m.setOn(r, lp, i, nil, nil) {
 		case "set":
 		case "self":
 			// unchanged in this round: the round must not be possible with the mark clear
@@ -616,12 +677,24 @@ func c11FatalReturns(r *Run, fn *ssa.Function, pair *laxPair, pc *ssa.Call, perr
 		case ret.Results[1] == perr:
 			e = "parseCertificate's error"
 		case mark != nil && ret.Results[1] == ssa.Value(mark):
+			// the mark only ever holds nil or parseCertificate's error (merged values looked through)
 			e = "parseCertificate's error"
-			for _, ed := range mark.Edges {
-				if ed != perr && ed != ssa.Value(mark) && !isNilConst(ed) {
-					e = "other"
+			seen := map[ssa.Value]bool{}
+			var leaves func(v ssa.Value)
+			leaves = func(v ssa.Value) {
+				if seen[v] || v == perr || isNilConst(v) {
+					return
 				}
+				seen[v] = true
+				if ph, ok := v.(*ssa.Phi); ok {
+					for _, ed := range ph.Edges {
+						leaves(ed)
+					}
+					return
+				}
+				e = "other"
 			}
+			leaves(mark)
 		}
 		return "(" + r.D.D(ret.Results[0]) + ", " + e + ")"
 	}
@@ -659,7 +732,7 @@ func c11FatalReturns(r *Run, fn *ssa.Function, pair *laxPair, pc *ssa.Call, perr
 	for _, m := range c11Marks(r, lp) {
 		set := true
 		for _, i := range edges {
-			set = set && (m.phi.Edges[i] == perr || m.setOn(r, lp, i) == "set")
+			set = set && m.setOn(r, lp, i, round, perr) == "set"
 		}
 		if !set {
 			continue
